@@ -852,6 +852,10 @@ func stateAfterObjectKey(s *Scanner, c byte) state {
 func stateAfterObjectValue(s *Scanner, c byte) state {
 	if s.isNewLine(c) {
 		s.found(lexeme.NewLine)
+		if s.annotation == annotationNone {
+			// The ban set by the closing bracket of a non-empty array ends with its line.
+			s.allowAnnotation = true
+		}
 		return scanContinue
 	}
 	if bytes.IsBlank(c) {
